@@ -348,7 +348,8 @@ class StmtMixin:
         if isinstance(iterable, GenV):
             raise Unsupported(f"for over a symbolic generator without invariant (line {node.lineno})")
         symbolic = isinstance(iterable, SeqV) or (isinstance(iterable, DictV) and iterable.entries is None) \
-            or (isinstance(iterable, RangeV) and (conc_int(iterable.start) is None or conc_int(iterable.stop) is None))
+            or (isinstance(iterable, RangeV) and (conc_int(iterable.start) is None or conc_int(iterable.stop) is None)) \
+            or (getattr(iterable, "kind", "") == "enumerate" and isinstance(getattr(iterable, "source", None), SeqV))
         if symbolic:
             return self.for_unrolled_symbolic(node, frame, iterable)
         for item in self.iterate_concrete(iterable, node.lineno):
